@@ -115,10 +115,16 @@ class _P(object):
         if self.isop('//'):
             # genshi documents a leading '//' as "any depth below (and including) the context"
             self.i += 1
-            st = self.step()
-            if st['axis'] != 'child':
-                raise Outside('leading // with an explicit axis')
-            st['axis'] = 'descendant-or-self'
+            # //step is /descendant-or-self::node()/step from the root *node*, whose only element
+            # child is the context (outermost) element: for the child, self, descendant and
+            # descendant-or-self axes that is descendant-or-self::test from the context element
+            # (position predicates would differ, see below); for the attribute axis the
+            # descendant-or-self::node() step stays
+            st = self.step(leading=True)
+            if st['axis'] == 'attribute':
+                steps.append({'axis': 'descendant-or-self', 'test': ['node'], 'preds': []})
+            else:
+                st['axis'] = 'leading'
             steps.append(st)
         else:
             steps.append(self.step())
@@ -128,7 +134,7 @@ class _P(object):
             steps.append(self.step())
         return steps
 
-    def step(self):
+    def step(self, leading=False):
         if self.isop('..'):
             raise Outside('parent axis')
         if self.isop('.'):
@@ -598,22 +604,30 @@ def eval_locpath(root, steps, nsmap, vs):
                 cand = [c] + list(descendants(c))
             else:
                 cand = [c]
-            cand = [n for n in cand if node_test(n, st['test'], nsmap)]
-            for p in st['preds']:
-                keep = []
-                for pos, n in enumerate(cand, 1):
-                    v = ev(p, n, nsmap, vs)
-                    if isinstance(v, float):
-                        ok = (v == pos)
-                    else:
-                        ok = to_bool(v)
-                    if ok:
-                        keep.append(n)
-                cand = keep
-            for n in cand:
-                if n.order not in seen:
-                    seen.add(n.order)
-                    nxt.append(n)
+            groups = [cand]
+            if axis == 'leading':
+                # '//T' from the (virtual) root node above the context element c: c is the root's
+                # only element child, then the children of c and of each of its descendants
+                groups = [[c]] + [list(d.kids) for d in [c] + list(descendants(c))]
+            for cand in groups:
+                cand = [n for n in cand if node_test(n, st['test'], nsmap)]
+                for p in st['preds']:
+                    keep = []
+                    for pos, n in enumerate(cand, 1):
+                        v = ev(p, n, nsmap, vs)
+                        if isinstance(v, float):
+                            ok = (v == pos)
+                            if axis == 'leading':
+                                ZONES.add('leading-position')    # C05-leading-dslash-position
+                        else:
+                            ok = to_bool(v)
+                        if ok:
+                            keep.append(n)
+                    cand = keep
+                for n in cand:
+                    if n.order not in seen:
+                        seen.add(n.order)
+                        nxt.append(n)
         nxt.sort(key=lambda n: n.order)
         ctx = nxt
     return ctx, {}
